@@ -24,6 +24,10 @@ def main():
     mod = importlib.util.module_from_spec(spec)
     sys.path.insert(0, os.path.join(core.VERIF, 'checks'))
     spec.loader.exec_module(mod)
+    # runs against a tree other than /repo regenerate coq/Gen from that tree: keep them apart from normal runs
+    import fcntl
+    lockf = open(os.path.join(core.VERIF, '.repo.lock'), 'w')
+    fcntl.flock(lockf, fcntl.LOCK_EX if os.path.realpath(core.REPO) != '/repo' else fcntl.LOCK_SH)
     ctx = core.Ctx(a.pid, tier, seed, replay=a.replay)
     try:
         if a.replay:
